@@ -241,6 +241,9 @@ def rule_b(ctx):
             val, consumed = t[1][0], t[1][1]
             cterm = strip_epoch(consumed.term if isinstance(consumed, AVal) else consumed)
             vterm = strip_epoch(val.term if isinstance(val, AVal) else val)
+            # an immutable copy of the result (bytes(<value>)) is the value
+            while vterm[0] == 'pure' and vterm[1] == 'bytes' and len(vterm[3]) == 1 and isinstance(vterm[3][0], tuple):
+                vterm = strip_epoch(vterm[3][0])
             if flag:
                 # id from the low seven bits, one byte consumed
                 if cterm != ('const', 1):
@@ -992,5 +995,12 @@ def rule_j(ctx):
     rep.require('C18.j', 'items whose content is derived from fields', n, 1)
 
 
+def rule_k(ctx):
+    """C18.k  No slice of the received bytes becomes a dictionary key without an immutable copy (rules/hashflow.py): the
+    names a parser hands back are looked up in the well-known tables when the item is encoded again."""
+    from .hashflow import rule_no_buffer_is_hashed
+    rule_no_buffer_is_hashed(ctx, 'C18.k')
+
+
 RULES = [('C18.a', rule_a), ('C18.b', rule_b), ('C18.c', rule_c), ('C18.d', rule_d), ('C18.e', rule_e),
-         ('C18.f', rule_f), ('C18.g', rule_entries), ('C18.h', rule_h), ('C12.e', rule_g), ('C18.i', rule_i), ('C18.j', rule_j)]
+         ('C18.f', rule_f), ('C18.g', rule_entries), ('C18.h', rule_h), ('C12.e', rule_g), ('C18.i', rule_i), ('C18.j', rule_j), ('C18.k', rule_k)]
